@@ -506,7 +506,12 @@ def run(ctx: Ctx):
     ctx.trusted += TRUSTED
     ctx.assumptions += [
         "a model's behaviour is a function of (run, step, model): deterministic models on per-run copies of the processor",
-        "exceptions are Exception subclasses (BaseException such as KeyboardInterrupt is outside the property)",
+        "classes that are not Exception subclasses (KeyboardInterrupt, SystemExit, custom BaseException) must propagate with "
+        "class and message and stop the run; the group/model and parameter notes are only due for Exception subclasses "
+        "(the handlers are `except Exception`)",
+        "the command line reports KeyboardInterrupt as click.Abort (click's convention): not injected through `pyxel run`",
+        "a StopIteration raised while the islands of a calibration are created surfaces as RuntimeError('generator raised "
+        "StopIteration') with the original as its cause (PEP 479, tqdm iterator): accepted when the original is in the chain",
         "Python >= 3.11 (add_note exists); dask and pygmo error transport as stated in the two Section hypotheses",
     ]
     gen = {}
@@ -533,11 +538,13 @@ def record(ctx, mism, viol, pairs):
             distinct.add(json.dumps([c["mode"], c.get("entry"), c.get("outputs"), c.get("cleanup_fails"), c.get("chained"),
                                      c["groups"], c["nsteps"], c["params"], c["faults"]], sort_keys=True))
     ctx.cov["distinct_nontrivial"] = ctx.cov.get("distinct_nontrivial", 0) + len(distinct)
-    ctx.cov["rule"] = ("one case = one run of pyxel.run_mode on a generated pipeline (2-4 groups, 1-3 models each, some "
-                       "disabled; 1-3 readouts; observation with 2-4 runs over 1-2 swept parameters) with faults injected "
-                       "at chosen (run, step, model) positions; every position of every scenario is used once; "
-                       "non-trivial = at least one injected fault; distinct = distinct (mode, pipeline, steps, "
-                       "parameters, faults)")
+    ctx.cov["rule"] = ("one case = one simulation started through one entry point (pyxel.run_mode, pyxel.run(file), the pyxel "
+                       "run command, a method of the mode object, a deprecated pyxel.*_mode function), with or without outputs, on a "
+                       "generated pipeline (2-4 groups, 1-3 models each, some disabled; 1-3 readouts; observation with 2-8 "
+                       "runs over 1-3 swept parameters, product or sequential) with faults injected at chosen (run, step, model) "
+                       "positions; in the run_mode stream every position of every scenario is used once, in the entry-point "
+                       "matrix every second one; non-trivial = at least one injected fault; distinct = distinct (mode, entry, "
+                       "outputs, flags, pipeline, steps, parameters, faults)")
     ctx.cov["traces_validated_against_impl"] = ctx.cov.get("traces_validated_against_impl", 0) + sum(
         1 for c, o in pairs if c["mode"] in ("exposure", "obs_seq"))
     ctx.cov["disagreements_checked"] = ctx.cov.get("disagreements_checked", 0) + len(mism)
@@ -607,23 +614,37 @@ def replay(ctx: Ctx, rp: dict) -> int:
 META = dict(
     level_text=(
         "Coq theorems over an executable model of the error path of all four running modes (ModelGroup.run adding the "
-        "group/model note and re-raising, Processor over groups, exposure over steps, the sequential observation loop adding "
-        "the run's parameters, the dask path as eager first run + lazy cells, calibration as initial population + evolutions): "
-        "for every behaviour of the model functions - any fault position, class, number of faults - and any pipeline, "
-        "schedule and parameter space (induction over runs/steps/groups/models) the driver raises the original class and "
-        "message, carries the note naming the faulting group and model and every key: value of the faulting run, returns no "
-        "result, and makes exactly the calls up to the fault. The parallel and calibration theorems hold under two explicit "
-        "hypotheses about dask (compute surfaces a failing cell) and pygmo (the re-raised text contains the original). The "
-        "model is tied to the code by fault injection at every (run, step, model) position of generated scenarios: the "
-        "observed exception (type, MRO, message, notes), returned object and call log are compared with the model and judged "
-        "against the specification inside Coq; a translator re-checks on every run that every exception handler in the "
-        "anchored functions ends in a bare re-raise. That the implementation behaves like the model is established by this "
-        "correspondence, i.e. by testing."),
+        "group/model note and re-raising, Processor over groups, exposure over steps - also in debug mode, with the capture "
+        "step after every call -, the sequential observation loop adding the run's parameters, the dask path as eager first "
+        "run + lazy cells, calibration as initial population + evolutions) and of what lies between them and the caller of "
+        "every public entry point (pyxel.run_mode, pyxel.run(file) with its try/finally, the `pyxel run` command, the methods "
+        "of Exposure/Observation/Calibration, the deprecated pyxel.exposure_mode/observation_mode/calibration_mode): for every "
+        "behaviour of the model functions - any fault position, any class including KeyboardInterrupt/SystemExit/custom "
+        "BaseException, any number of faults - and any pipeline, schedule and parameter space (induction over "
+        "runs/steps/groups/models) the driver raises the original class and message, carries (for Exception subclasses) the "
+        "note naming the faulting group and model and every key: value of the faulting run, returns no result, and makes "
+        "exactly the calls up to the fault; any stack of except/finally/with constructs none of which can drop an exception "
+        "(handler ending in a bare raise, finally block not left by return/break/continue, non-suppressing context manager) "
+        "hands the exception to its caller - itself, or as the context of a clean-up failure - for any run-time behaviour of "
+        "the clean-up steps. The parallel and calibration theorems hold under two explicit hypotheses about dask (compute "
+        "surfaces a failing cell) and pygmo (the re-raised text contains the original). The model is tied to the code (a) by a "
+        "translator that on every run reads all 41 functions on the 37 paths from the entry points to a model call and "
+        "re-proves, over the regenerated tables, that every function exists, refers to the next one and contains no "
+        "construct that can drop an exception, and (b) by fault injection at every (run, step, model) position of generated "
+        "scenarios through every entry point, with and without outputs, in every mode: the observed exception (type, MRO, "
+        "message, notes, chain), returned object and call log are compared with the model and judged against the "
+        "specification inside Coq. That the implementation behaves like the model is established by this correspondence, "
+        "i.e. by testing."),
     level_note=(
-        "Trusted: Coq kernel + vm_compute; translator/c09.py; the correspondence harness and probes; CPython semantics of "
-        "add_note / bare raise / str(exc); dask and pygmo error transport (Section hypotheses, sampled). Calibration is "
-        "exercised only in the thorough tier (1 island, population 7, 1-2 evolutions). Model behaviour is assumed to be a "
-        "function of (run, step, model)."),
-    technique="Coq proof over a result-monad model of the four drivers + in-Coq correspondence/spec evaluation of fault injection",
+        "Trusted: Coq kernel + vm_compute; translator/c09.py (incl. its list of non-suppressing context managers) and the "
+        "hand-written path table (call edges through pygmo/dask are not checked); the correspondence harness and probes; "
+        "CPython semantics of add_note / bare raise / try-finally / PEP 479 / str(exc); dask and pygmo error transport "
+        "(Section hypotheses, sampled with the threaded, synchronous and process schedulers and 1-3 islands). The deprecated "
+        "observation path attaches no run parameters and, under dask.bag, drops a run whose model raises StopIteration (open "
+        "findings; the full statements are kept and refuted). `pyxel run` reports KeyboardInterrupt as click.Abort (not "
+        "injected there). pyxel.run on a dask observation without outputs computes nothing, so nothing can surface (not "
+        "generated). Model behaviour is assumed to be a function of (run, step, model)."),
+    technique="Coq proof over a result-monad model of the drivers, the entry points and the exception-dropping constructs + "
+              "regenerated path/construct tables + in-Coq correspondence/spec evaluation of fault injection",
     design_ref="DESIGN.md section 6, C09",
 )
